@@ -317,15 +317,19 @@ CHECKS = {
                 "API boundary; schedules: directed single pause before a seeded lock event of one thread, double pauses, or seeded jitter at "
                 "every lock acquisition (lock events come from the instrumented lock_api). Oracles: no torn read (vector and metadata of one "
                 "read from the same write), no read of an unwritten value, and a Wing-Gong linearizability search of every key's sub-history "
-                "against a register-with-delete model (failed/unfinished ops stay open). distinct_nontrivial = distinct (programs, observed "
-                "per-key outcomes)",
-        "legs": [{"name": "linearizability", "argv": ["c05"], "shards": 16}],
+                "against a register-with-delete model (failed/unfinished ops stay open). Leg server-reads: the REAL kyrodb_server, one writer "
+                "connection per id (250 / 600 inserts-overwrites-deletes with unique write ids in vector and metadata), 2-4 reader connections "
+                "issuing Query and BulkQuery with embeddings; every read must pair vector and metadata of one write and must observe the state "
+                "left by the last write completed before it began or by a write overlapping it (client clock). distinct_nontrivial = distinct "
+                "(programs, observed per-key outcomes) / server cases",
+        "legs": [{"name": "linearizability", "argv": ["c05"], "shards": 16},
+                 {"name": "server-reads", "argv": ["c05", "--leg", "server"], "bin_args": {"server": "server"}, "shards": 8, "timeout_q": 1800}],
         "assumptions": COMMON_ASSUME + ["delete/insert boolean results are not part of the sequential specification", "interleavings finer than lock events and exhaustive preemption-bounded enumeration are out of reach",
                                          "schedules are steered by pauses and jitter on free-running OS threads and are not exactly replayable; the recorded history is the witness"],
         "min_evaluations": 1000,
         "level_text": "linearizability checking of recorded concurrent histories of the real engine under directed delay injection at lock events; "
                       "tens of thousands of short histories per run; exploration of schedules, not exhaustive",
-        "level_note": "trusted: the Wing-Gong checker and the monotonic event counter; the server's own handlers are not covered by this leg",
+        "level_note": "trusted: the Wing-Gong checker and the monotonic event counter; the server-reads leg uses one writer per id (program order = version order) and interval-overlap reasoning instead of the full checker",
         "technique": "runtime monitoring: recorded call/return histories + per-key linearizability checker + delay injection at lock events",
     },
     "C08": {
